@@ -285,7 +285,7 @@ def generic_lints(ctx: Ctx, rule: str = "lint", kinds=None, scope=None):
     from ..loader import AnalysisError
     from ..scope import in_scope
 
-    if L.self_check() != (20, 0) or L.orientation_self_check() != (1, 0):
+    if L.self_check() != (21, 0) or L.orientation_self_check() != (1, 0):
         raise AnalysisError(f"generic lints: the positive control is no longer recognised {L.self_check()} {L.orientation_self_check()}")
     n, hits = 0, []
     members = []
@@ -330,7 +330,37 @@ def generic_lints(ctx: Ctx, rule: str = "lint", kinds=None, scope=None):
     for where, kind, why in hits:
         ctx.violated(f"{rule}.{kind}", where, kind, "see cubeverif/lints.py", why)
     if not hits:
-        ctx.held(rule, "this property's code: floor division, int casts, identity with literals, unordered sets", f"{n} functions scanned, none found", "", "positive control: 20 of 20 recognised")
+        ctx.held(rule, "this property's code: floor division, int casts, identity with literals, unordered sets", f"{n} functions scanned, none found", "", "positive control: 21 of 21 recognised")
+    if kinds is None and scope is None:
+        public_cache_slots(ctx)
+
+
+def public_cache_slots(ctx: Ctx, rule: str = "public-alias.cache-slot"):
+    """The public accessors this property is observed at (the `observe_at` names of its record that are attributes of the
+    partition classes) each have a cache slot of their own - see shared_cache_slots."""
+    import json as _json
+    import os as _os
+    import re as _re
+
+    path = _os.path.join(_os.path.dirname(_os.path.dirname(_os.path.dirname(_os.path.abspath(__file__)))), "properties.jsonl")
+    rec = next((r for r in map(_json.loads, open(path)) if r.get("id") == ctx.prop), None)
+    if rec is None:
+        return
+    words = set(_re.findall(r"[A-Za-z_][A-Za-z0-9_]*", " ".join(rec.get("anchors", {}).get("observe_at", []) or [])))
+    already = {o.construct for o in ctx.obligations if o.rule.endswith(rule)}
+    for cname in ("_Slice", "_Strand"):
+        ci = ctx.repo.opt_cls("cubepart.py", cname)
+        if ci is None:
+            continue
+        attrs = set()
+        for c in ci.mro:
+            if c.module is not ci.module:
+                continue
+            attrs |= set(c.members) | set(c.aliases)
+            attrs |= {st.targets[0].id for st in c.node.body if isinstance(st, ast.Assign) and len(st.targets) == 1 and isinstance(st.targets[0], ast.Name)}
+        names = tuple(sorted(w for w in words if w in attrs and not w.startswith("_")))
+        if names and f"cubepart.py::{cname} [{', '.join(names)}]" not in already:
+            shared_cache_slots(ctx, rule, "cubepart.py", cname, names)
 
 
 # --------------------------------------------------------------------------- dependency footprints of the measures
@@ -975,6 +1005,29 @@ def subtotal_free_types(ctx: Ctx, rule: str = "subtotal-free-types"):
                 forced.append(guards)
         ctx.count("subtotal-free type tables")
         if not forced:
+            # the type guard may stand BEHIND the test for insertions in the analysis transforms: full table over
+            # (dimension type x insertions in the transforms present / absent) of which path is taken
+            INS = ("'insertions' in self._dimension_transforms_dict", "self._dimension_transforms_dict.get('insertions') is not None")
+            paths = strip_ifexp_paths(e)
+            known = all(("dimension_type" in u(t)) or u(t) in INS for gs, _l in paths for t, _p in gs)
+            if known and paths:
+                bad, n = [], 0
+                try:
+                    for mem in dt_members(ctx.repo):
+                        for has_ins in (True, False):
+                            for gs, leaf in paths:
+                                if all((bool(eval_over_types(ctx.repo, ci.module, t, {"self.dimension_type": mem})) if "dimension_type" in u(t) else has_ins) == pol for t, pol in gs):
+                                    is_empty = isinstance(leaf, ast.Call) and u(leaf.func).endswith("_Subtotals") and leaf.args and u(leaf.args[0]) in ("[]", "()", "tuple()", "list()", "{}")
+                                    n += 1
+                                    if is_empty != (mem in spec):
+                                        bad.append(f"{mem}, insertions in the analysis transforms {'present' if has_ins else 'absent'}: subtotals {'dropped' if is_empty else 'kept'} (specified {'dropped' if mem in spec else 'kept'})")
+                                    break
+                except (DTop, Raises) as exc:
+                    ctx.undecided(rule, where, f"DECTAB: {exc}", "table over DIMENSION_TYPE")
+                    continue
+                ctx.ob(rule, where, bad[:3] or f"{n} (type, transforms) cases agree", "subtotals dropped wholesale for MR_SUBVAR and CA_SUBVAR only - wherever the insertions come from", not bad,
+                       "the items of an MR / CA dimension are never summed: the base classes broadcast ONE item's base onto an inserted row")
+                continue
             ctx.undecided(rule, where, "no path returns the empty collection under type guards alone", "empty for MR_SUBVAR / CA_SUBVAR")
             continue
         bad, n = [], 0
@@ -1236,3 +1289,105 @@ def nullable_key_agreement(ctx: Ctx, rule: str = "nullable-key", family: str = "
 def parent_expr(fn: ast.AST, n: ast.AST) -> ast.AST:
     parent = {c: p for p in ast.walk(fn) for c in ast.iter_child_nodes(p)}
     return parent.get(n, n)
+
+
+def shim_leaves_transforms_alone(ctx: Ctx, rule: str = "transforms-not-rewritten"):
+    """The id shim rewrites the ids of a transforms dict in a COPY: the caller's dict (one saved order applied to several
+    variables) must name the same things for the next dimension.  EFFECTS over the members of `_ElementIdShim`: every write
+    goes to an object created in the writing function (or a sub-object of one)."""
+    from ..effects import inventory
+
+    sites = [w for w in inventory(ctx.repo) if w.member.cls.name == "_ElementIdShim"]
+    ctx.count("write sites of the id shim", len(sites))
+    from .c18 import ACCEPTED_WRITES
+
+    # (the listed idempotent stores into the dimension DICT copy - C18's acceptance table - are not about the transforms)
+    bad = [w for w in sites if w.cls not in ("Fresh", "Self") and w.class_key not in ACCEPTED_WRITES]
+    for w in bad:
+        ctx.violated(rule, w.key, f"write to a {w.cls} object (root `{w.root}`)", "the ids are rewritten in a copy of the transforms",
+                     "the caller's transforms dict then carries THIS dimension's aliases: for the next dimension every listed id names nothing, the explicit order / fixed lists / hides are silently dropped")
+    if not bad:
+        ctx.held(rule, "dimension.py::_ElementIdShim", f"{len(sites)} write sites, all into objects the shim created", "the ids are rewritten in a copy of the transforms")
+    ctx.require_min("write sites of the id shim", 3)
+
+
+def _truth_tested_names(fn: ast.AST):
+    """Names whose bare truth value decides something in `fn`: `if p`, `if not p`, `p and ..`, `x if p else y`, `bool(p)`, `while p`"""
+    out = set()
+
+    def bare(e):
+        while isinstance(e, ast.UnaryOp) and isinstance(e.op, ast.Not):
+            e = e.operand
+        if isinstance(e, ast.BoolOp):
+            for v in e.values:
+                bare(v)
+        elif isinstance(e, ast.Name):
+            out.add(e.id)
+
+    for n in ast.walk(fn):
+        if isinstance(n, (ast.If, ast.While, ast.IfExp)):
+            bare(n.test)
+        elif isinstance(n, ast.Assert):
+            bare(n.test)
+        elif isinstance(n, ast.Call) and isinstance(n.func, ast.Name) and n.func.id == "bool" and len(n.args) == 1:
+            bare(n.args[0])
+        elif isinstance(n, ast.comprehension):
+            for t in n.ifs:
+                bare(t)
+    return out
+
+
+def _position_vars(fn: ast.AST):
+    """Names bound to POSITIONS: targets of a loop / comprehension over range(..), the counter of enumerate(..)"""
+    out = set()
+    for n in ast.walk(fn):
+        if isinstance(n, (ast.For, ast.comprehension)):
+            it, tg = n.iter, n.target
+            if isinstance(it, ast.Call) and isinstance(it.func, ast.Name) and it.func.id == "range" and isinstance(tg, ast.Name):
+                out.add(tg.id)
+            if isinstance(it, ast.Call) and isinstance(it.func, ast.Name) and it.func.id == "enumerate" and isinstance(tg, (ast.Tuple, ast.List)) and tg.elts and isinstance(tg.elts[0], ast.Name):
+                out.add(tg.elts[0].id)
+    return out
+
+
+def position_param_truthiness(ctx: Ctx, rule: str = "position-truthiness", sites=(("cubepart.py", "_Slice"), ("cubepart.py", "_Strand"))):
+    """A display / payload POSITION handed to a helper (the column a pairwise test is selected for, ...) is 0 for the first
+    element: a helper that asks `if position:` - the habit of an optional argument generalised from `is not None` - treats
+    the first element as "no position given".  Call sites bind helper parameters to loop counters; truth tests of such a
+    parameter inside the helper are reported."""
+    from ..loader import AnalysisError
+
+    ctl = ast.parse("class K:\n    def helper(p, exclude=()):\n        if exclude:\n            p[:, exclude] = False\n        return p\n    def outer(self):\n        return [self.helper(self.p(col), exclude=col) for col in range(len(self.order))]\n    def helper_ok(p, col=None):\n        if col is not None:\n            p[:, col] = False\n        return p\n").body[0]
+    fns = {f.name: f for f in ctl.body}
+    if "exclude" not in _truth_tested_names(fns["helper"]) or _truth_tested_names(fns["helper_ok"]) or "col" not in _position_vars(fns["outer"]):
+        raise AnalysisError(f"{rule}: the controls are no longer recognised")
+    n, hits = 0, []
+    for short, cname in sites:
+        ci = ctx.repo.opt_cls(short, cname)
+        if ci is None:
+            continue
+        for c in ci.mro:
+            if c.module is not ci.module:
+                continue
+            for m in c.members.values():
+                pos = _position_vars(m.node)
+                if not pos:
+                    continue
+                for call in ast.walk(m.node):
+                    if not (isinstance(call, ast.Call) and isinstance(call.func, ast.Attribute) and isinstance(call.func.value, ast.Name) and call.func.value.id in ("self", "cls")):
+                        continue
+                    hm = ctx.repo.lookup(ci, call.func.attr)
+                    if hm is None or hm.kind not in ("method", "staticmethod", "classmethod"):
+                        continue
+                    params = hm.params
+                    bound = [(p_, a) for p_, a in zip(params, call.args)] + [(k.arg, k.value) for k in call.keywords if k.arg]
+                    for p_, a in bound:
+                        if isinstance(a, ast.Name) and a.id in pos:
+                            n += 1
+                            if p_ in _truth_tested_names(hm.node):
+                                hits.append((f"{short}::{hm.cls.name}.{hm.name} [parameter {p_}]", f"truth test of `{p_}`, bound to the position `{a.id}` in {c.name}.{m.name}"))
+    ctx.count("helper parameters bound to positions", n)
+    for where, text in sorted(set(hits)):
+        ctx.violated(rule, where, text, "`is not None` (position 0 is the first element)", "the first row / column is treated as 'no position': whatever is done per selected position is skipped for it, and moves with the display order")
+    if not hits:
+        ctx.held(rule, "partition helpers taking a position", f"{n} parameter bindings to loop positions, none truth-tested", "", "controls recognised")
